@@ -28,3 +28,24 @@ open(p,'w').write(s.replace(old,new))
 PY
 diff -u "$SRC/src/error.rs" vendor/ethnum-kani/src/error.rs > vendor/ethnum-kani.diff || true
 echo "vendor/ethnum-kani ready"
+# anyhow for Kani: identical source, but the build script never enables std backtrace capture
+# (cfg std_backtrace / error_generic_member_access). Backtraces are error-report decoration only; with them CBMC has
+# to explore std::backtrace drop glue at every place an anyhow::Error may be dropped (see DESIGN.md section 2).
+ASRC=$(ls -d "$HOME"/.cargo/registry/src/*/anyhow-1.0.97 | head -n1)
+[ -d "$ASRC" ] || { echo "anyhow-1.0.97 not in cargo registry" >&2; exit 2; }
+rm -rf vendor/anyhow-kani
+cp -r "$ASRC" vendor/anyhow-kani
+rm -f vendor/anyhow-kani/.cargo-ok vendor/anyhow-kani/.cargo_vcs_info.json vendor/anyhow-kani/Cargo.toml.orig
+python3 - <<'PY'
+import sys
+p='vendor/anyhow-kani/build.rs'
+s=open(p).read()
+n=s.count('println!("cargo:rustc-cfg=std_backtrace");')+s.count('println!("cargo:rustc-cfg=error_generic_member_access");')
+if n != 3:
+    sys.exit("anyhow build.rs anchors lost (%d)" % n)
+s=s.replace('println!("cargo:rustc-cfg=std_backtrace");','/* verif: backtrace capture disabled for Kani */')
+s=s.replace('println!("cargo:rustc-cfg=error_generic_member_access");','/* verif: backtrace capture disabled for Kani */')
+open(p,'w').write(s)
+PY
+diff -u "$ASRC/build.rs" vendor/anyhow-kani/build.rs > vendor/anyhow-kani.diff || true
+echo "vendor/anyhow-kani ready"
